@@ -113,9 +113,66 @@ def translate(name, params, src):
             "def %s (self : Muxer)%s : Option MErr :=\n  firstSome [\n    %s]\n" % (name, name, ps, ",\n    ".join(guards)))
 
 
+WERR = {"NonIncreasingTimestamp": ".nonIncreasingTimestamp", "FirstFrameMustBeKeyframe": ".firstFrameMustBeKeyframe",
+        "FirstFrameMissingSpsPps": ".firstFrameMissingSpsPps", "FirstFrameMissingSequenceHeader": ".firstFrameMissingSequenceHeader",
+        "FirstFrameMissingVp9Config": ".firstFrameMissingVp9Config", "InvalidAdtsDetailed": ".invalidAdts _",
+        "InvalidOpusPacket": ".invalidOpusPacket", "AudioNotEnabled": ".audioNotEnabled", "DurationOverflow": ".durationOverflow",
+        "AlreadyFinalized": ".alreadyFinalized"}
+
+
+def translate_convert(src):
+    """`convert_mp4_error`: one `match err { Mp4WriterError::A => MuxerError::B {..}, .. }`; per arm the target variant and
+    whether the frame index travels with it.  The arm for the unit variant `InvalidAdts` is skipped: the writer never
+    constructs it (the model's `WErr` has only the detailed form)."""
+    sig, body = find_fn(src, "convert_mp4_error")
+    m = re.fullmatch(r"\s*match\s+err\s*\{(.*)\}\s*", body, re.S)
+    if not m:
+        raise Untranslatable("body is not a single match on err")
+    arms, cur, d = [], "", 0
+    for ch in re.sub(r"\}\s*(?=Mp4WriterError::)", "}, ", m.group(1)):      # block arms carry no comma
+        if ch in "({[":
+            d += 1
+        elif ch in ")}]":
+            d -= 1
+        if ch == "," and d == 0:
+            arms.append(cur); cur = ""
+        else:
+            cur += ch
+    arms.append(cur)
+    lines, seen = [], set()
+    for arm in [a.strip() for a in arms if a.strip()]:
+        mm = re.fullmatch(r"Mp4WriterError::(\w+)(\(\w+\))?\s*=>\s*\{?\s*(.*?)\s*\}?", arm, re.S)
+        if not mm:
+            raise Untranslatable("match arm: " + arm[:60])
+        lhs, rhs = mm.group(1), mm.group(3)
+        if lhs == "InvalidAdts":
+            continue
+        if lhs not in WERR:
+            raise Untranslatable("writer error variant " + lhs)
+        t = re.match(r"MuxerError::(\w+)\s*(.*)", rhs, re.S)
+        if not t:
+            raise Untranslatable("arm value: " + rhs[:60])
+        v, payload = t.group(1), t.group(2)
+        idx = "(some frame_index)" if re.search(r"\bframe_index\b", payload) else "none"
+        lines.append("  | %s => .err .%s %s" % (WERR[lhs], v[0].lower() + v[1:], idx))
+        seen.add(lhs)
+    missing = set(WERR) - seen
+    if missing:
+        raise Untranslatable("no arm for " + ", ".join(sorted(missing)))
+    return ("/-- `Muxer::convert_mp4_error` (src/api.rs): the API error variant each writer error becomes, and whether the\n"
+            "    frame index is reported with it -/\n"
+            "def convert_mp4_error (err : WErr) (frame_index : Nat) : Reply :=\n  match err with\n" + "\n".join(lines) + "\n")
+
+
 def generate():
     src = strip_comments(open(os.path.join(REPO, "src/api.rs")).read())
     out, failed = [], []
+    try:
+        out.append(translate_convert(src))
+    except Untranslatable as e:
+        msg = re.sub(r"\s+", " ", str(e))
+        failed.append(("convert_mp4_error", msg))
+        out.append("-- UNTRANSLATABLE convert_mp4_error: %s\n" % msg)
     for name, params in TARGETS:
         try:
             out.append(translate(name, params, src))
@@ -141,7 +198,7 @@ def main():
             f.write(text)
     for n, e in failed:
         print("untranslatable %s: %s" % (n, e))
-    print("generated %d guard prefixes (%d untranslatable)%s" % (len(TARGETS) - len(failed), len(failed), "" if old == text else " [file updated]"))
+    print("generated %d definitions (%d untranslatable)%s" % (len(TARGETS) + 1 - len(failed), len(failed), "" if old == text else " [file updated]"))
     return 1 if failed else 0
 
 
